@@ -3,6 +3,69 @@ use std::path::PathBuf;
 
 use crate::ctx::{Ctx, Tier, install_panic_hook};
 
+/// A process may use several ciphersuites. `--prelude <suite>` runs a small workload of *another* ciphersuite before
+/// the property's own workload, so that anything the library caches per process (instead of per ciphersuite) is
+/// already filled with the other suite's values. The driver gives it to every odd-numbered shard.
+pub fn prelude_suite() -> Option<String> {
+    let args: Vec<String> = std::env::args().collect();
+    args.iter().position(|a| a == "--prelude").and_then(|i| args.get(i + 1).cloned())
+}
+
+pub fn prelude<D: crate::Suite>() {
+    use crate::proto::*;
+    use crate::wire::Wire;
+    let mut rng = crate::rng::TraceRng::from_parts(&[b"prelude", D::NAME.as_bytes()]);
+    let Ok(g) = dealer_group::<D>(3, 2, None, None, &mut rng) else { return };
+    let signers = g.ids[..2].to_vec();
+    let Ok(sess) = sign_session(&g, &signers, b"prelude", &mut rng) else { return };
+    let sig = D::api_aggregate(&sess.pkg, &sess.shares, &g.pkp);
+    // every kind of encoding and decoding once
+    macro_rules! rt {
+        ($v:expr, $t:ty) => {{
+            if let Ok(b) = <$t as Wire<D>>::enc(&$v) {
+                let _ = <$t as Wire<D>>::dec(&b);
+            }
+            if let Ok(s) = <$t as Wire<D>>::to_json(&$v) {
+                let _ = <$t as Wire<D>>::from_json(&s);
+            }
+        }};
+    }
+    let me = g.ids[0];
+    rt!(g.kps[&me].clone(), frost_core::keys::KeyPackage<D>);
+    rt!(g.pkp.clone(), frost_core::keys::PublicKeyPackage<D>);
+    rt!(g.shares[&me].clone(), frost_core::keys::SecretShare<D>);
+    rt!(g.shares[&me].commitment().clone(), frost_core::keys::VerifiableSecretSharingCommitment<D>);
+    rt!(sess.pkg.clone(), frost_core::SigningPackage<D>);
+    rt!(sess.nonces[&me].clone(), frost_core::round1::SigningNonces<D>);
+    rt!(sess.comms[&me], frost_core::round1::SigningCommitments<D>);
+    rt!(sess.shares[&me], frost_core::round2::SignatureShare<D>);
+    rt!(me, frost_core::Identifier<D>);
+    if let Ok(s) = &sig {
+        rt!(*s, frost_core::Signature<D>);
+        let _ = g.pkp.verifying_key().verify(b"prelude", s);
+        let mut v = frost_core::batch::Verifier::<D>::new();
+        if let Ok(it) = frost_core::batch::Item::<D>::new(*g.pkp.verifying_key(), *s, b"prelude") {
+            v.queue(it);
+        }
+        let _ = v.verify(&mut rng);
+    }
+    if let Ok((gd, run, _)) = dkg_group::<D>(2, 2, &g.ids[..2], &mut rng) {
+        rt!(run.r1_pkgs[&me].clone(), frost_core::keys::dkg::round1::Package<D>);
+        rt!(run.r1_secret[&me].clone(), frost_core::keys::dkg::round1::SecretPackage<D>);
+        rt!(run.r2_secret[&me].clone(), frost_core::keys::dkg::round2::SecretPackage<D>);
+        let _ = gd;
+    }
+    let _ = frost_core::Identifier::<D>::derive(b"prelude");
+    let _ = frost_rerandomized::RandomizedParams::<D>::new_from_commitments(g.pkp.verifying_key(), &sess.comms, &mut rng);
+    let _ = D::api_reconstruct(&g.kps.values().cloned().collect::<Vec<_>>());
+    if let Ok((rs, _)) = D::api_compute_refreshing_shares(g.pkp.clone(), &g.ids, &mut rng) {
+        let _ = D::api_refresh_share(rs[0].clone(), &g.kps[&g.ids[0]]);
+    }
+    if let Ok(d) = D::api_repair_part1(&g.ids[1..], &g.kps[&g.ids[1]], &mut rng, g.ids[0]) {
+        let _ = D::api_repair_part2(&d.values().copied().collect::<Vec<_>>());
+    }
+}
+
 pub fn parse() -> Ctx {
     let args: Vec<String> = std::env::args().collect();
     let mut prop = String::new();
@@ -27,6 +90,8 @@ pub fn parse() -> Ctx {
             }
             "--only-item" => { only = Some(args[i + 1].parse().unwrap()); i += 1; }
             "--out" => { out = PathBuf::from(&args[i + 1]); i += 1; }
+            "--prelude" => { i += 1; }
+            "--resume" => { i += 1; }
             a if prop.is_empty() && !a.starts_with("--") => prop = a.to_string(),
             a => { eprintln!("unknown arg {a}"); std::process::exit(64); }
         }
